@@ -14,6 +14,7 @@ import partitura.score as score
 from partitura.score import Score, Part, PartGroup, ScoreLike
 from partitura.performance import Performance, PerformedPart, PerformanceLike
 from partitura.utils import partition, fifths_mode_to_key_name
+from partitura.utils.music import seconds_to_midi_ticks
 
 from partitura.utils.misc import deprecated_alias, PathLike
 
@@ -141,7 +142,7 @@ def save_performance_midi(
 
         for c in performed_part.meta_other:
             track = c.get("track", 0)
-            t = int(np.round(10**6 * ppq * c["time"] / mpq))
+            t = seconds_to_midi_ticks(c["time"], mpq=mpq, ppq=ppq)
             msg_info = dict(
                 [
                     (key, val)
@@ -153,7 +154,7 @@ def save_performance_midi(
 
         for c in performed_part.key_signatures:
             track = c.get("track", 0)
-            t = int(np.round(10**6 * ppq * c["time"] / mpq))
+            t = seconds_to_midi_ticks(c["time"], mpq=mpq, ppq=ppq)
             track_events[track][t].append(
                 MetaMessage(
                     type="key_signature",
@@ -166,7 +167,7 @@ def save_performance_midi(
 
         for c in performed_part.time_signatures:
             track = c.get("track", 0)
-            t = int(np.round(10**6 * ppq * c["time"] / mpq))
+            t = seconds_to_midi_ticks(c["time"], mpq=mpq, ppq=ppq)
             track_events[track][t].append(
                 MetaMessage(
                     type="time_signature",
@@ -178,7 +179,7 @@ def save_performance_midi(
         for c in performed_part.controls:
             track = c.get("track", 0)
             ch = c.get("channel", 1)
-            t = int(np.round(10**6 * ppq * c["time"] / mpq))
+            t = seconds_to_midi_ticks(c["time"], mpq=mpq, ppq=ppq)
             track_events[track][t].append(
                 Message(
                     "control_change",
@@ -195,8 +196,8 @@ def save_performance_midi(
         ):
             track = n.get("track", 0)
             ch = n.get("channel", 1)
-            t_on = int(np.round(10**6 * ppq * n["note_on"] / mpq))
-            t_off = int(np.round(10**6 * ppq * n["note_off"] / mpq))
+            t_on = seconds_to_midi_ticks(n["note_on"], mpq=mpq, ppq=ppq)
+            t_off = seconds_to_midi_ticks(n["note_off"], mpq=mpq, ppq=ppq)
             vel = n.get("velocity", default_velocity)
             track_events[track][t_on].append(
                 Message("note_on", note=n["midi_pitch"], velocity=vel, channel=ch)
@@ -208,7 +209,7 @@ def save_performance_midi(
         for p in performed_part.programs:
             track = p.get("track", 0)
             ch = p.get("channel", 1)
-            t = int(np.round(10**6 * ppq * p["time"] / mpq))
+            t = seconds_to_midi_ticks(p["time"], mpq=mpq, ppq=ppq)
             track_events[track][t].append(
                 Message("program_change", program=int(p["program"]), channel=ch)
             )
